@@ -234,7 +234,7 @@ set_option maxRecDepth 4000 in
 /-- the monitor accepts `exMovie` (so `Accepts` has non-trivial inhabitants, memory re-link included) -/
 example : (runCheck exCfg exMovie).verdict = "ok" := by
   simp [runCheck, runCheck.loop, exCfg, exMovie, initCheck, initCfg, stepCheck, nextState, stepGroups,
-    stepCands, candsOf, subnets, addSource, hasDest, realDests, cappedB, oversizeB, nNeighbors, validWhy,
+    stepCands, candsOf, candsOfRow, distRow, subnets, addSource, hasDest, realDests, cappedB, oversizeB, nNeighbors, validWhy,
     optWhy, freshLabels, linksOkB, gSrcs, gAsg, srcOf, asgOf, groupOkB, pairwiseDisjointB, groupDests, dests, chosenOf,
     getD', view, dist2, sqI, insCand, solveOrdered, go, exceeds, taken, better, sortedB, admissibleB, cost,
     List.zipIdx, List.range, List.range.loop, List.idxOf?, List.findIdx?, List.findIdx?.go, List.find?]
